@@ -11,7 +11,7 @@ class Sampling:
     def __init__(self, prog, crate="divan"):
         self.prog = prog
         self.body = None
-        cands = [b for b in prog.lib_bodies(crate) if any(c.callee == PAR_EXTEND for c in b.live_calls())
+        cands = [b for b in prog.owner_bodies(crate) if any(c.callee == PAR_EXTEND for c in b.live_calls())
                  and "::tests::" not in b.path and not b.path.startswith("util::thread::pool")]
         if len(cands) != 1:
             return
